@@ -27,7 +27,7 @@ func init() {
 		Title:      "IR built through the constructors prints to valid, faithful LLVM assembly",
 		Decided:    "every constructor parameter is stored, same-typed parameters in the like-named field (CTOR-1); lazily cached result types are computed in the constructor (CTOR-2); every builder method forwards its parameters in order to the like-named constructor, stores the result once, sets Parent and returns it (CTOR-3); every field is read by its printer (FLD-P) in grammar order (ORD) under the right opcode (OPC); the getelementptr constructors compute their result type through the shared walk with the vector length of every index taken from the index type (GEP-WALK, GEP-VLEN on ir and ir/constant); unnamed values are numbered in the order they are printed (NUM-ORDER).",
 		NotDecided: "acceptance of the text by LLVM, execution results, structural identity after re-parsing, and that a constructor's own type check never rejects a well-typed operand (the panicking checks in New* are not classified).",
-		Rules:      []RuleUse{{Rule: "CTOR-1"}, {Rule: "CTOR-2"}, {Rule: "CTOR-3"}, {Rule: "FLD-P"}, {Rule: "ORD"}, {Rule: "OPC"},
+		Rules: []RuleUse{{Rule: "CTOR-1"}, {Rule: "CTOR-2"}, {Rule: "CTOR-3"}, {Rule: "FLD-P"}, {Rule: "ORD"}, {Rule: "OPC"},
 			{Rule: "GEP-WALK", Filter: keyPrefix("ir.", "ir/constant."), Floor: 4}, {Rule: "GEP-VLEN", Filter: keyPrefix("ir.", "ir/constant."), Floor: 2}, {Rule: "NUM-ORDER"}},
 	})
 	addProperty(&Property{
